@@ -1,6 +1,7 @@
 import PoolProofs.C07LemmasModify
 import PoolProofs.C07LemmasClose
 import PoolProofs.C07LemmasDeposit
+import PoolProofs.C07LemmasOverflow
 
 /-!
 # C07 — deposits, withdrawals, renewals and closures conserve the account's funds
@@ -96,9 +97,9 @@ theorem C07_withdraw_conserves (so : ScriptOf) (hso : ScriptLen34 so) (a : Accou
     (eh ≠ 0 → best.toNat + 144 ≤ eh.toNat ∧ eh.toNat ≤ best.toNat + 52560) ∧
     ModifySpec so a outputs rate (determineWitnessType a best) (if eh ≠ 0 then some eh else none) nv
       (withdraw so a outputs rate best eh nv f) := by
-  obtain ⟨hs, hv, ne, v, hne, hvau, heq⟩ := withdraw_inv h
+  obtain ⟨hs, hv, ne, v, hne, hvau, hfresh, heq⟩ := withdraw_inv h
   rw [heq] at h ⊢
-  have hspec := modify_spec hso (by decide : Action.withdraw ≠ .close) hvau h
+  have hspec := modify_spec hso (by decide : Action.withdraw ≠ .close) hfresh hvau h
   rcases optExpiry_ok hne with ⟨h0, hn⟩ | ⟨h0, hn, hval⟩
   · subst hn
     refine ⟨hs, hv, fun hx => absurd h0 hx, ?_⟩
@@ -118,7 +119,7 @@ theorem C07_renew_conserves (so : ScriptOf) (hso : ScriptLen34 so) (a : Account)
       (some newExpiry) nv (renew so a newExpiry rate best nv f) := by
   obtain ⟨hs, hv, hexp, v, hvau, heq⟩ := renew_inv h
   rw [heq] at h ⊢
-  exact ⟨hs, hv, expiry_window _ _ hexp, modify_spec hso (by decide : Action.renew ≠ .close) hvau h⟩
+  exact ⟨hs, hv, expiry_window _ _ hexp, modify_spec hso (by decide : Action.renew ≠ .close) (by simp) hvau h⟩
 
 /-! ## closures -/
 
@@ -126,7 +127,9 @@ theorem C07_renew_conserves (so : ScriptOf) (hso : ScriptLen34 so) (a : Account)
 closing outputs of the fee expression (verbatim), records value 0 / pending-closed with the outpoint unchanged, and
 everything but the fee is paid out: `fee = old − Σ outputs ≥ 253·W/1000`, no output dust or negative.  For a
 single output with a fee rate (`OutputWithFee`, script given or wallet-derived), for EVERY script type
-`ParsePkScript` accepts, the output is `old − rate·W/1000` with `W` the full weight of the broadcast transaction. -/
+`ParsePkScript` accepts, the output is `old − rate·W/1000` with `W` the full weight of the broadcast transaction.
+On the expiry path (account marked expired, or best height ≥ expiry) the auctioneer is not contacted and the lock time
+is the best height; otherwise exactly one auctioneer request precedes the store write and the lock time is 0. -/
 theorem C07_close_conserves (so : ScriptOf) (a : Account) (fe : FeeExpr) (ws : Bool → Script) (best : UInt32)
     (f : Faults) (h : (close so a fe ws best f).refusal = none) :
     ∃ (outs : List TxOut) (tx : Tx) (acct' : Account) (w : Nat) (pre : List Effect),
@@ -134,7 +137,11 @@ theorem C07_close_conserves (so : ScriptOf) (a : Account) (fe : FeeExpr) (ws : B
       fe.closeOutputs ws a.value (determineWitnessType a best) = .ok outs ∧
       (close so a fe ws best f).tx = some tx ∧ (close so a fe ws best f).account = some acct' ∧
       (close so a fe ws best f).trace = pre ++ [.storeWrite acct', .publish tx] ∧
-      pre.length ≤ 1 ∧ (∀ e ∈ pre, e.isModify = true) ∧
+      -- expiry path (account marked expired or best height ≥ expiry): the auctioneer is NOT contacted and the lock
+      -- time is the best height; cooperative path otherwise: exactly one auctioneer request, lock time 0
+      ((a.state = StateExpired ∨ a.expiry.toNat ≤ best.toNat) → pre = [] ∧ tx.lockTime = best.toNat) ∧
+      (¬ (a.state = StateExpired ∨ a.expiry.toNat ≤ best.toNat) → pre.length = 1 ∧ tx.lockTime = 0) ∧
+      (∀ e ∈ pre, e.isModify = true) ∧
       tx.inputs.map (·.prev) = [a.outPoint] ∧ tx.outputs.Perm outs ∧
       acct'.value = 0 ∧ acct'.state = StatePendingClosed ∧ acct'.outPoint = a.outPoint ∧
       witnessSize (determineWitnessType a best) = some w ∧
@@ -157,7 +164,27 @@ theorem C07_close_conserves (so : ScriptOf) (a : Account) (fe : FeeExpr) (ws : B
   subst hinT
   have hperm : (sortBy outLt outs).Perm outs := sortBy_perm _ _
   have hsum : sumValues (sortBy outLt outs) = sumValues outs := sumValues_perm hperm
-  refine ⟨outs, _, _, w, pre, hs, ho, htx, hacct, htrace, hpre1, hpre2, ?_, hperm, ?_, ?_, ?_, hw, ?_, ?_, ?_, ?_⟩
+  obtain ⟨hexpiff, hcoopiff⟩ := determineWitnessType_expiry a best
+  have hpathE : (a.state = StateExpired ∨ a.expiry.toNat ≤ best.toNat) → pre = [] ∧ lock = best.toNat := by
+    intro hx
+    have hwt := hexpiff.mpr hx
+    have hnc : ¬ (determineWitnessType a best = wt_multiSigWitness ∨ determineWitnessType a best = wt_muSig2Taproot) :=
+      fun hc => (hcoopiff.mp hc) hx
+    simp only [hnc, if_false] at hpre1
+    refine ⟨List.eq_nil_of_length_eq_zero hpre1, ?_⟩
+    rcases hlock with ⟨_, _, hl⟩ | ⟨hc, _⟩
+    · exact hl
+    · exact absurd hc hnc
+  have hpathC : ¬ (a.state = StateExpired ∨ a.expiry.toNat ≤ best.toNat) → pre.length = 1 ∧ lock = 0 := by
+    intro hx
+    have hc := hcoopiff.mpr hx
+    simp only [hc, if_true] at hpre1
+    refine ⟨hpre1, ?_⟩
+    rcases hlock with ⟨he, _, _⟩ | ⟨_, hl⟩
+    · exact absurd (hexpiff.mp he) hx
+    · exact hl
+  refine ⟨outs, _, _, w, pre, hs, ho, htx, hacct, htrace, hpathE, hpathC, hpre2, ?_, hperm, ?_, ?_, ?_, hw, ?_, ?_, ?_,
+    ?_⟩
   · simp [createSpendTx, Account.txIn]
   · simp [applyMods, Modifier.apply]
   · simp [applyMods, Modifier.apply]
@@ -202,7 +229,7 @@ theorem C07_deposit_conserves (so : ScriptOf) (a : Account) (amount rate : Int) 
       (deposit so a amount rate best eh nv maxValue fd f).tx = some tx ∧
       (deposit so a amount rate best eh nv maxValue fd f).account = some acct' ∧
       (deposit so a amount rate best eh nv maxValue fd f).trace = pre ++ [.storeWrite acct', .publish tx] ∧
-      pre.length ≤ 1 ∧ (∀ e ∈ pre, e.isModify = true) ∧
+      pre.length = 1 ∧ (∀ e ∈ pre, e.isModify = true) ∧
       tx.inputs.Perm (fdv.inputs ++ [a.txIn so]) ∧ (tx.inputs.map (·.prev)).Nodup ∧
       acct'.value = a.value + amount ∧ acct'.value ≤ maxV ∧ (MinAccountValue : Int) ≤ acct'.value ∧
       acct'.version = max a.version nv ∧
@@ -227,10 +254,13 @@ theorem C07_deposit_conserves (so : ScriptOf) (a : Account) (amount rate : Int) 
     · exact ⟨idx, hl, hm⟩
     · exact absurd hc (by decide)
   obtain ⟨idx, hl, hm⟩ := hloc'
-  have hlock0 : lock = 0 := by
-    rcases hlock with ⟨_, hc, _⟩ | ⟨_, h0⟩
+  have hlock0 : lock = 0 ∧ (determineWitnessType a best = wt_multiSigWitness ∨
+      determineWitnessType a best = wt_muSig2Taproot) := by
+    rcases hlock with ⟨_, hc, _⟩ | ⟨hw, h0⟩
     · exact absurd hc (by decide)
-    · exact h0
+    · exact ⟨h0, hw⟩
+  obtain ⟨hlock0, hcoop⟩ := hlock0
+  simp only [hcoop, if_true] at hpre1
   subst hlock0 hm
   obtain ⟨fee, fdv, outs, hfee, hfd, hfix, htxeq⟩ := inputsForDeposit_ok htx0
   obtain ⟨_, _, hrange, hnodup, hdust, inT, w, hin, _, hfloor⟩ := sanityCheck_ok hsan
@@ -278,6 +308,59 @@ theorem C07_deposit_conserves (so : ScriptOf) (a : Account) (amount rate : Int) 
     · show (applyMods a ms).value = _
       rw [hval, hfunds]; omega
 
+/-! ## spend path and versions -/
+
+/-- **C07_spend_path**: which path a spend takes, as a function of the account and the best height, tied to the
+source: the expiry witness is chosen iff the account is marked expired or `expiry ≤ best` (model), the Go function
+`determineWitnessType` has exactly that condition and `spendAccount` assigns lock time `bestHeight` to the expiry
+witnesses and `0` to the cooperative ones (regenerated facts `expiredConds`, `lockTimeSwitch`, `expirySpendTypes`). -/
+theorem C07_spend_path (a : Account) (best : UInt32) :
+    (((determineWitnessType a best = wt_expiryWitness ∨ determineWitnessType a best = wt_expiryTaproot) ↔
+      (a.state = StateExpired ∨ a.expiry.toNat ≤ best.toNat)) ∧
+     ((determineWitnessType a best = wt_multiSigWitness ∨ determineWitnessType a best = wt_muSig2Taproot) ↔
+      ¬ (a.state = StateExpired ∨ a.expiry.toNat ≤ best.toNat))) ∧
+    expiredConds = ["account.State == StateExpired || account.Expiry <= bestHeight"] ∧
+    lockTimeSwitch = [(wt_expiryWitness, "bestHeight"), (wt_multiSigWitness, "0"), (wt_expiryTaproot, "bestHeight"),
+      (wt_muSig2Taproot, "0")] ∧
+    expirySpendTypes = [wt_expiryWitness, wt_expiryTaproot] :=
+  ⟨determineWitnessType_expiry a best, by decide, by decide, by decide⟩
+
+/-- **C07_versions_preserved**: the recorded version is `max old requested`; so a known version (≤ 2, what the RPC
+layer's `determineAccountVersion` passes) on a known account stays known and is never lowered.  (The manager itself
+does not reject unknown versions > 2 – that validation lives in the RPC layer.) -/
+theorem C07_versions_preserved (so : ScriptOf) (a : Account) (v : Int) (ne : Option UInt32) (nv : Nat)
+    (ha : a.version ≤ VersionMuSig2V100RC2) (hn : nv ≤ VersionMuSig2V100RC2) :
+    (applyMods a (createNewAccountOutput so a v ne nv).2).version ≤ VersionMuSig2V100RC2 ∧
+    a.version ≤ (applyMods a (createNewAccountOutput so a v ne nv).2).version := by
+  obtain ⟨_, _, _, _, hver, _, _⟩ := cnao_fields so a v ne nv
+  rw [hver]
+  constructor
+  · exact Nat.max_le.mpr ⟨ha, hn⟩
+  · exact Nat.le_max_left _ _
+
+/-! ## int64 -/
+
+/-- **C07_no_int64_overflow**: inside the domain guard `InDomain` (account value and every requested amount within
+±21e14 sat, fee rate 0..1e9 sat/kw, ≤ 1000 outputs) every intermediate value of `valueAfterAccountUpdate` (all
+running output totals, `feeRate·weight`, the fee, both subtractions) and of `OutputWithFee.CloseOutputs` lies in the
+`int64` range, so Go's wrapped `int64` arithmetic coincides with the model's unbounded integers there. -/
+theorem C07_no_int64_overflow :
+    (∀ (value rate : Int) (outs : List TxOut) (wt : Nat) (v : Int), InDomain value rate outs →
+      valueAfterAccountUpdate value outs wt rate = .ok v →
+      ∃ w t, witnessSize wt = some w ∧
+        vauLoop ((({} : Twe).addWitnessInput w).addOutput baseAccountOutputSize) 0 outs = .ok (t, sumValues outs) ∧
+        (∀ k, I64 (sumValues (outs.take k))) ∧ I64 (sumValues outs) ∧
+        (t.weight : Int) ≤ 200000 ∧ I64 (rate * (t.weight : Int)) ∧ I64 (feeForWeight rate t.weight) ∧
+        I64 (value - sumValues outs) ∧ I64 (value - sumValues outs - feeForWeight rate t.weight) ∧
+        v = value - sumValues outs - feeForWeight rate t.weight) ∧
+    (∀ (s : Script) (r value : Int) (wt : Nat) (outs : List TxOut),
+      0 ≤ value ∧ value ≤ 2100000000000000 → 0 ≤ r ∧ r ≤ 1000000000 →
+      outputWithFeeCloseOutputs s r value wt = .ok outs →
+      ∃ w W : Nat, witnessSize wt = some w ∧ W = (8 + 1 + 41 + 1 + (9 + s.length)) * 4 + 2 + w ∧ W ≤ 200000 ∧
+        I64 (r * (W : Int)) ∧ I64 (feeForWeight r W) ∧ I64 (value - feeForWeight r W) ∧
+        outs = [⟨value - feeForWeight r W, s⟩]) :=
+  ⟨fun _ _ _ _ _ hd h => vau_no_overflow hd h, fun _ _ _ _ _ hv hr h => owf_no_overflow hv hr h⟩
+
 /-! ## refusals -/
 
 /-- **C07_refusals_no_effect**: if an operation leaves ANY effect (auctioneer request, store write or broadcast),
@@ -315,7 +398,7 @@ theorem C07_refusals_no_effect (so : ScriptOf) (a : Account) (best : UInt32) (f 
         (∀ o ∈ tx.outputs, isDustOutput o = false ∧ 0 ≤ o.value)) := by
   refine ⟨?_, ?_, ?_, ?_⟩
   · intro outputs rate eh nv h
-    obtain ⟨hs, hv, ne, v, hne, hvau, heq⟩ := withdraw_trace_inv h
+    obtain ⟨hs, hv, ne, v, hne, hvau, hfresh, heq⟩ := withdraw_trace_inv h
     rw [heq] at h
     obtain ⟨_, _, lock, _, hsan, _⟩ := spendAccount_trace_prepared h
     obtain ⟨_, _, hrange, _, hdust, _⟩ := sanityCheck_ok hsan
@@ -382,5 +465,13 @@ set_option maxRecDepth 100000 in
 example : (withdraw exSo exAcct [⟨293, exOut.script⟩] 253 800000 0 0 {}).trace.length = 0
     ∧ (withdraw exSo exAcct [exOut] 253 800000 0 0 { auctioneer := true }).trace.length = 1
     ∧ (withdraw exSo exAcct [exOut] 253 800000 0 0 {}).trace.length = 3 := by decide
+
+set_option maxRecDepth 100000 in
+example : (applyMods exAcct (createNewAccountOutput exSo exAcct 5 none 2).2).version = 2 := by decide
+
+example : InDomain 1000000 253 [exOut] :=
+  ⟨by decide, by decide, by intro o ho; simp [exOut] at ho; subst ho; decide, by decide⟩
+set_option maxRecDepth 100000 in
+example : (valueAfterAccountUpdate 1000000 [exOut] 1 253).toOption = some 799816 := by decide
 
 end Pool.C07
